@@ -5,6 +5,7 @@ import (
 	"encoding/hex"
 	"encoding/json"
 	"fmt"
+	"go/token"
 	"go/types"
 	"os"
 	"os/exec"
@@ -24,8 +25,11 @@ func init() {
 		Explanation: "Decides the compare-then-delete discipline on both sides: (ts) in LivenessScanner.Check every `delete` verdict is returned only under EntryExpired(...)==true (or reverse entry missing) and carries LastSeen() of the very entry that was judged; " +
 			"(nodirect) in Scanner.Scan a conntrack entry is deleted directly from user space only when there is no BPF cleaner or the verdict is delete-immediate, and only under a delete verdict; everything else is queued for the kernel-side cleaner with the judged timestamp(s) taken from that Check call; " +
 			"(cguard) in conntrack_cleanup.c every cali_ct_delete_elem is nested (then-branch) in an `if` comparing ->last_seen of a freshly looked-up entry with the timestamp the scanner recorded (last_seen / rev_last_seen), in the IPv4 and IPv6 builds; " +
-			"(timeouts) EntryExpired reads every field of timeouts.Timeouts.",
-		NotDecided: "Interleavings between scanner, kernel cleaner and packet path; the timeout arithmetic inside EntryExpired; that idle entries are eventually removed (liveness).",
+			"(timeouts) EntryExpired reads every field of timeouts.Timeouts; " +
+			"(idle) in EntryExpired and the function it delegates to, every return of expired==true is reached only across an edge `I > T` (or `I >= T`, in either spelling) whose larger side I is the entry's idle time, " +
+			"i.e. arithmetic over `now - entry.LastSeen()` in which LastSeen() is the only accessor of the entry and is subtracted; other timestamps or flags of the entry may only be further conjuncts; " +
+			"edges that need a bool parameter EntryExpired passes as constant false are treated as infeasible.",
+		NotDecided: "Interleavings between scanner, kernel cleaner and packet path; which timeout value an idle time is compared with (protocol/state selection) inside EntryExpired; that idle entries are eventually removed (liveness).",
 		Assumptions: []string{
 			"go/types + go/ssa model (CGO_ENABLED=0 stubs)", "clang 14 AST of conntrack_cleanup.c with /verif/cstubs standing in for libbpf",
 			"LastSeen() is a pure accessor of the entry value",
@@ -40,6 +44,12 @@ func init() {
 				Old: "\t\t\tif s.bpfCleaner == nil {\n", New: "\t\t\tif s.bpfCleaner == nil || ctVal.Type() == TypeNormal {\n", Expect: "C14.nodirect/"},
 			{Name: "cleanup queue gets a fresh timestamp instead of the judged one", File: "felix/bpf/conntrack/scanner.go",
 				Old: "\t\t\ts.updateCleanupMap(ctKey, dummy, uint64(ts), uint64(ts))\n", New: "\t\t\ts.updateCleanupMap(ctKey, dummy, uint64(ctVal.LastSeen()), uint64(ts))\n", Expect: "C14.tsflow/"},
+			{Name: "residual-RST rule measures its limit from the RST timestamp, not from last_seen", File: "felix/bpf/conntrack/cleanup.go",
+				Old: "if entry.RSTSeen() != 0 && age > 2*60*time.Second {", New: "if entry.RSTSeen() != 0 && time.Duration(nowNanos-entry.RSTSeen()) > 2*60*time.Second {", Expect: "C14.idle/entryDone/expired"},
+			{Name: "RST seen expires the entry regardless of how long it has been idle", File: "felix/bpf/conntrack/cleanup.go",
+				Old: "if rstSeen && age > t.TCPResetSeen {", New: "if rstSeen {", Expect: "C14.idle/entryDone/expired"},
+			{Name: "ICMP timeout comparison the wrong way round", File: "felix/bpf/conntrack/cleanup.go",
+				Old: "if age > t.ICMPTimeout {", New: "if age < t.ICMPTimeout {", Expect: "C14.idle/entryDone/expired"},
 		},
 	})
 }
@@ -121,12 +131,14 @@ func runC14(c *Ctx) {
 	c.Rule("C14.nodirect", "E-GUARD", "Scanner.Scan: maps.IterDelete is returned only under a delete verdict and (no BPF cleaner or delete-immediate)", 2)
 	c.Rule("C14.tsflow", "E-FLOW", "Scanner.Scan: timestamps queued for the kernel cleaner derive from result #1 of the Check call whose verdict is being acted on, under a delete verdict", 2)
 	c.Rule("C14.cguard", "E-CAST", "conntrack_cleanup.c: every cali_ct_delete_elem sits in the then-branch of an if comparing X->last_seen (X a local looked-up entry) with value->last_seen / value->rev_last_seen", 6)
+	c.Rule("C14.idle", "E-GUARD/E-FLOW", "EntryExpired (and the function it delegates to): every return of expired==true is guarded by a comparison idle > timeout whose larger side derives from now - entry.LastSeen() and from no other accessor of the entry", 8)
 	c.Rule("C14.timeouts", "E-FIELDS", "EntryExpired reads every field of timeouts.Timeouts", 1)
 
 	p := c.Load(ctPkg, "felix/bpf/conntrack/timeouts")
 	c14Check(c, p)
 	c14Scan(c, p)
 	c14Timeouts(c, p)
+	c14Idle(c, p)
 	c14CGuard(c)
 }
 
@@ -358,6 +370,228 @@ func c14Timeouts(c *Ctx, p *Prog) {
 	c.Check(len(miss) == 0 && len(want) > 0, "C14.timeouts/EntryExpired", p.Pos(fn.Pos()),
 		fmt.Sprintf("all %d fields of timeouts.Timeouts are read", len(want)),
 		fmt.Sprintf("EntryExpired never reads Timeouts.%v: entries in that protocol/state would never (or always) expire", miss))
+}
+
+// ------------------------------------------------------------------- idle --
+
+// c14IdleExpr: v is arithmetic over the entry's idle time: conversions, +, -,
+// scaling by a constant, over parameters, constants and entry.LastSeen(), where
+// LastSeen() (lastSeen: the method object of the entry parameter's type) occurs
+// at least once, only subtracted, and no other call contributes.
+func c14IdleExpr(v ssa.Value, entry *ssa.Parameter, lastSeen *types.Func) (bool, string) {
+	n := 0
+	why := ""
+	seen := map[ssa.Value]bool{}
+	fail := func(s string) {
+		if why == "" {
+			why = s
+		}
+	}
+	var walk func(v ssa.Value, neg bool, depth int)
+	walk = func(v ssa.Value, neg bool, depth int) {
+		if depth > 12 {
+			fail("expression too deep")
+			return
+		}
+		switch x := v.(type) {
+		case *ssa.Convert:
+			walk(x.X, neg, depth+1)
+		case *ssa.ChangeType:
+			walk(x.X, neg, depth+1)
+		case *ssa.Phi:
+			if seen[v] {
+				return
+			}
+			seen[v] = true
+			for _, e := range x.Edges {
+				walk(e, neg, depth+1)
+			}
+		case *ssa.BinOp:
+			_, xc := constOf(x.X)
+			_, yc := constOf(x.Y)
+			switch {
+			case x.Op == token.ADD:
+				walk(x.X, neg, depth+1)
+				walk(x.Y, neg, depth+1)
+			case x.Op == token.SUB:
+				walk(x.X, neg, depth+1)
+				walk(x.Y, !neg, depth+1)
+			case (x.Op == token.MUL || x.Op == token.QUO) && yc:
+				walk(x.X, neg, depth+1)
+			case x.Op == token.MUL && xc:
+				walk(x.Y, neg, depth+1)
+			default:
+				fail("operator " + x.Op.String())
+			}
+		case *ssa.UnOp:
+			if al, ok := x.X.(*ssa.Alloc); ok && x.Op == token.MUL {
+				k := 0
+				for _, r := range *al.Referrers() {
+					if st, ok := r.(*ssa.Store); ok && st.Addr == ssa.Value(al) {
+						k++
+						walk(st.Val, neg, depth+1)
+					}
+				}
+				if k == 0 {
+					fail("uninitialised local")
+				}
+				return
+			}
+			fail("reads " + path(v))
+		case *ssa.Call:
+			callee := calleeOf(x.Common())
+			if g := calleeFn(x.Common()); callee != lastSeen && g != nil && g.Blocks != nil && g.Pkg == entry.Parent().Pkg && g.Signature.Results().Len() == 1 && depth < 6 {
+				// an extracted helper computing the idle time of the judged entry
+				var prm *ssa.Parameter
+				for i, a := range x.Common().Args {
+					os := origins(a, nil)
+					if len(os) == 1 && os[0].V == ssa.Value(entry) && i < len(g.Params) {
+						prm = g.Params[i]
+					}
+				}
+				if prm != nil {
+					all := true
+					for _, r := range returnsOf(g) {
+						if ok, _ := c14IdleExpr(r.Results[0], prm, lastSeen); !ok {
+							all = false
+						}
+					}
+					if all && len(returnsOf(g)) > 0 {
+						if neg {
+							fail("idle time is subtracted")
+							return
+						}
+						n++
+						return
+					}
+				}
+			}
+			if callee == nil || callee != lastSeen {
+				name := path(v)
+				if callee != nil {
+					name = callee.Name() + "()"
+				}
+				fail("uses " + name)
+				return
+			}
+			recv := CallSite{x, callee, x.Parent()}.Args()[0]
+			ok := false
+			for _, o := range origins(recv, nil) {
+				ok = o.V == ssa.Value(entry)
+				if !ok {
+					break
+				}
+			}
+			if !ok {
+				fail("LastSeen() of something other than the judged entry (" + path(recv) + ")")
+				return
+			}
+			if !neg {
+				fail("LastSeen() is not subtracted")
+				return
+			}
+			n++
+		case *ssa.Parameter, *ssa.Const:
+		default:
+			fail("reads " + path(v))
+		}
+	}
+	walk(v, false, 0)
+	if why == "" && n == 0 {
+		why = "does not involve LastSeen()"
+	}
+	return why == "", why
+}
+
+// c14Idle: an entry is judged expired only by comparing its idle time with a timeout.
+func c14Idle(c *Ctx, p *Prog) {
+	root := p.Func(ctPkg, "EntryExpired")
+	if root == nil || root.Blocks == nil {
+		c.Lost("conntrack.EntryExpired")
+	}
+	visited := map[*ssa.Function]bool{}
+	var analyse func(fn *ssa.Function, falseParams map[*ssa.Parameter]bool)
+	analyse = func(fn *ssa.Function, falseParams map[*ssa.Parameter]bool) {
+		if visited[fn] {
+			return
+		}
+		visited[fn] = true
+		// the judged entry: the parameter whose type has a LastSeen method
+		var entry *ssa.Parameter
+		var lastSeen *types.Func
+		for _, prm := range fn.Params {
+			if o, _, _ := types.LookupFieldOrMethod(prm.Type(), true, fn.Pkg.Pkg, "LastSeen"); o != nil {
+				if f, ok := o.(*types.Func); ok {
+					entry, lastSeen = prm, f
+				}
+			}
+		}
+		if entry == nil {
+			c.Lost("%s: no parameter with a LastSeen() method (the judged entry)", fnName(fn))
+		}
+		rets := returnsOf(fn)
+		sort.Slice(rets, func(i, j int) bool { return rets[i].Pos() < rets[j].Pos() })
+		n := 0
+		for _, r := range rets {
+			if r.Block() == fn.Recover || len(r.Results) == 0 {
+				continue
+			}
+			res := r.Results[len(r.Results)-1]
+			if b, ok := res.Type().Underlying().(*types.Basic); !ok || b.Kind() != types.Bool {
+				c.Lost("%s: last result is not the bool `expired`", fnName(fn))
+			}
+			site := p.Pos(r.Pos())
+			if cv, isConst := constOf(res); isConst {
+				if cv.String() != "true" {
+					continue
+				}
+				n++
+				key := fmt.Sprintf("C14.idle/%s/expired#%d", fnName(fn), n)
+				rejected := ""
+				ok := guardedCut(r, func(cond ssa.Value, pol bool) bool {
+					if prm, isPrm := cond.(*ssa.Parameter); isPrm && pol && falseParams[prm] {
+						return true // infeasible for EntryExpired
+					}
+					hi, _, _, isCmp := c23Greater(cond, pol)
+					if !isCmp {
+						return false
+					}
+					good, why := c14IdleExpr(hi, entry, lastSeen)
+					if !good && rejected == "" && (strings.HasPrefix(why, "uses ") || strings.HasPrefix(why, "LastSeen()")) {
+						rejected = fmt.Sprintf("; the comparison at %s has %s on its larger side, which %s", p.Pos(cond.Pos()), path(hi), why)
+					}
+					return good
+				})
+				c.Check(ok, key, site, "expired only when now - "+path(entry)+".LastSeen() exceeds a timeout",
+					fnName(fn)+" can report the entry expired on a path that never established `now - "+path(entry)+".LastSeen() > timeout`: a connection that carried traffic recently is judged expired, queued with its current last_seen and deleted by the kernel cleaner"+rejected)
+				continue
+			}
+			// delegated verdict
+			if ex, isEx := res.(*ssa.Extract); isEx {
+				if call, isCall := ex.Tuple.(*ssa.Call); isCall {
+					if g := calleeFn(call.Common()); g != nil && g.Blocks != nil && ex.Index == g.Signature.Results().Len()-1 {
+						fp := map[*ssa.Parameter]bool{}
+						args := call.Common().Args
+						for i, prm := range g.Params {
+							if i >= len(args) {
+								break
+							}
+							if cv, isConst := constOf(args[i]); isConst && cv.String() == "false" {
+								fp[prm] = true
+							}
+							if ap, isPrm := args[i].(*ssa.Parameter); isPrm && falseParams[ap] {
+								fp[prm] = true
+							}
+						}
+						analyse(g, fp)
+						continue
+					}
+				}
+			}
+			c.Undecided("C14.idle/"+fnName(fn)+"/result", site, "the expired result %s is neither a constant nor the result of a function with a body", path(res))
+		}
+	}
+	analyse(root, map[*ssa.Parameter]bool{})
 }
 
 func c14CGuard(c *Ctx) {
